@@ -96,6 +96,11 @@ pub struct DistributedPlan {
     /// Output column names of the ORIGINAL query, so the distributed answer has
     /// the same schema as the single-node one rather than a rewritten one.
     pub output_names: Vec<String>,
+    /// The same columns as the single-node RESULT labels them: a column
+    /// selected through a qualifier (`d.name`) is reported as `d.name`, not
+    /// `name`. The merge query aliases by `output_names`; the result is
+    /// relabelled with these.
+    pub output_labels: Vec<String>,
 }
 
 /// Decide whether `sql` can be answered by fan-out + merge, and if so how.
@@ -120,6 +125,12 @@ pub fn plan_distributed(ctx: &ExecutionContext, sql: &str) -> Result<Distributed
         .fields()
         .iter()
         .map(|f| f.name.clone())
+        .collect();
+    let output_labels: Vec<String> = logical
+        .schema()
+        .fields()
+        .iter()
+        .map(|f| f.qualified_name())
         .collect();
 
     let group_exprs: Vec<sa::Expr> = match &select.group_by {
@@ -149,9 +160,10 @@ pub fn plan_distributed(ctx: &ExecutionContext, sql: &str) -> Result<Distributed
                 final_sql: None,
                 shape: MergeShape::Concat,
                 output_names,
+                output_labels,
             });
         }
-        return plan_topn(select, &ol, caps.table, output_names);
+        return plan_topn(select, &ol, caps.table, output_names, output_labels);
     }
 
     if select.projection.len() != output_names.len() {
@@ -206,6 +218,7 @@ pub fn plan_distributed(ctx: &ExecutionContext, sql: &str) -> Result<Distributed
         final_sql: Some(final_sql),
         shape: MergeShape::TwoPhase,
         output_names,
+        output_labels,
     })
 }
 
@@ -313,6 +326,7 @@ fn plan_topn(
     ol: &OrderLimit,
     table: String,
     output_names: Vec<String>,
+    output_labels: Vec<String>,
 ) -> Result<DistributedPlan> {
     // Merge-stage ORDER BY may only use columns the partial rows carry:
     // output aliases/columns or ordinals.
@@ -387,6 +401,7 @@ fn plan_topn(
         final_sql: Some(final_sql),
         shape: MergeShape::TopN,
         output_names,
+        output_labels,
     })
 }
 
